@@ -25,6 +25,9 @@ pub const SITE_NAMES: [&str; NSITES] = [
     "ParseArgs", "EvalEnter", "EvalLoop", "boundary", "exit", "basic_block", "after_shared_access", "blocked_on_futex",
 ];
 
+/// a PRNG-driven run stops pre-empting inside calls after this many context switches (each costs ~20-40 us)
+pub const MAX_INTRA_SWITCHES: u64 = 3000;
+
 /// per-call cap on ticks inside a simulated run (pool entries need far fewer: see oracle::isolated_tick_cap)
 pub fn call_step_cap() -> u64 {
     if tick::bb_guards() > 0 {
@@ -265,6 +268,9 @@ impl St {
     fn decide(&mut self, spec: &RunSpec, me: usize, pos: (u32, u32), kind: Kind) -> Option<usize> {
         let must_leave = matches!(kind, Kind::Exit | Kind::Blocked);
         let stay = if must_leave { None } else { Some(me) };
+        if matches!(kind, Kind::Tick(_)) && self.switches > MAX_INTRA_SWITCHES && spec.policy != Policy::Replay {
+            return stay;
+        }
         match &spec.policy {
             Policy::Replay => self.decide_replay(spec, me, pos, must_leave),
             Policy::Serial => {
@@ -387,6 +393,10 @@ impl St {
     /// After a decision that lets `me` continue at tick `t` of call `call_no`: the tick at which `me` must
     /// enter the scheduler again (u64::MAX: not before the call ends).
     fn compute_wake(&mut self, spec: &RunSpec, me: usize, call_no: u32, t: u64) -> u64 {
+        // bound the cost of a run: after this many context switches a PRNG-driven run only switches between calls
+        if self.switches > MAX_INTRA_SWITCHES && spec.policy != Policy::Replay {
+            return u64::MAX;
+        }
         match &spec.policy {
             Policy::Serial | Policy::CallAtomic { .. } => u64::MAX,
             Policy::RandomWalk { p } | Policy::Targeted { p, .. } | Policy::RaceDirected { p, .. } => {
